@@ -1268,6 +1268,12 @@ PROPS["C13"]["level_text"] += (" TASK FUTURES ARE DROPPED (first clause): observ
                                "aborted_command_drops_task_futures (tasks.clear() of an aborted command drops every stored task's future, any task layer).")
 PROPS["C13"]["streams"].append(Stream("lset", "timer", "timer", lset_gen, nontrivial=lset_nontrivial, shape=lset_shape,
                                       shrink=lambda c: timer_shrinks(c)))
+PROPS["C13"]["streams"].append(Stream("mset", "timer", "timer",
+                                      lambda tier, seed: [["gen-mset", seed, 4000 if tier == "quick" else 200000]],
+                                      nontrivial=lset_nontrivial, shape=lset_shape, shrink=lambda c: timer_shrinks(c)))
+PROPS["C13"]["rule"] += (" mset stream: the same observation and clause in ONE app that starts timers through BOTH timer APIs (1..6 timers, "
+                         "random API per timer; model MWorld: one id counter, one set; theorem cleared_timer_set_bounded_mixed); a step in "
+                         "which a command-API timer panics on a wrong response reads `panic`, later steps `dead`, on both sides.")
 PROPS["C13"]["rule"] += (" lset stream (engine timer): 1..9 legacy capability timers (caps.time.notify_after / notify_at / clear) in one real "
                          "Core; actions per timer: start, start+clear in one update, clear(id) (before, while and after the timer is pending, "
                          "repeated), answer (right / foreign id / other kind), drop the request, answer the Clear notification, idle call. "
